@@ -174,36 +174,6 @@ def viPrefix : M Int := do
 def cntOf (s : VS) : Int := (if s.arg1 != 0 then s.arg1 else 1) * (if s.arg2 != 0 then s.arg2 else 1)
 
 /-! ### reading one character and a prompt line (the text side of led.c) -/
-/-- `led_readchar(c, kmap)` for the default keymap: the bytes of one typed character -/
-def readChar (c : Int) : M (Option Bytes) := do
-  if c == 22 then          -- ^V: literal
-    let d ← termRead
-    pure (some [d.toNat % 256])
-  else if c == 11 then     -- ^K: digraph (not modelled)
-    unmodelled
-    pure none
-  else if c ≥ 192 then
-    let n := ucLen c.toNat
-    let rec more : Nat → Bytes → M Bytes
-      | 0, acc => pure acc
-      | k + 1, acc => do
-        let d ← termRead
-        more k (acc ++ [d.toNat % 256])
-    let bs ← more (n - 1) [c.toNat]
-    pure (some bs)
-  else pure (some [c.toNat % 256])
-
-/-- `led_read(&kmap)` (`vi_char()`): one character, `none` on an interrupt key -/
-def viChar : M (Option Bytes) := do
-  let rec go : Nat → M (Option Bytes)
-    | 0 => pure none
-    | f + 1 => do
-      let c ← termRead
-      if tkInt c then pure none
-      else if c == 6 || c == 5 then go f        -- ^F / ^E switch keymaps
-      else readChar c
-  go 64
-
 /-- byte offset of the last character of `s` (`led_lastchar`) -/
 def lastChar (s : Bytes) : Nat :=
   if s.isEmpty then 0 else (s.length - 1) - ucBeg (s.getLast?.getD 0) (s.dropLast.reverse)
@@ -227,36 +197,96 @@ def lastWord (s : Bytes) : Nat :=
     | f + 1, r => if r > 0 && kindOf (r - 1) == kind then back2 f (r - 1) else r
   starts.getD (back2 k r) 0
 
-/-- the text-editing loop of `led_line` without auto-indent keys: returns (text, terminating key) -/
-def ledLineSimple : M (Bytes × Int) := do
-  let rec go : Nat → Bytes → M (Bytes × Int)
-    | 0, sb => pure (sb, -1)
-    | f + 1, sb => do
+def isBlankC (c : Nat) : Bool := c == 32 || c == 9
+
+/-! ### led.c: reading a line -/
+/-- `led_readchar(c, kmap)` for the default keymap, as the C string it returns -/
+def readCharS (c : Int) : M (Option Bytes) := do
+  if c == 22 then
+    let d ← termRead
+    pure (some (if d.toNat % 256 == 0 then [] else [d.toNat % 256]))
+  else if c == 11 then do
+    unmodelled
+    pure none
+  else if c ≥ 192 then
+    let n := ucLen c.toNat
+    let rec more : Nat → Bytes → M Bytes
+      | 0, acc => pure acc
+      | k + 1, acc => do
+        let d ← termRead
+        more k (acc ++ [d.toNat % 256])
+    let bs ← more (n - 1) [c.toNat]
+    pure (some (bs.takeWhile (· != 0)))
+  else pure (some (if c.toNat % 256 == 0 then [] else [c.toNat % 256]))
+
+/-- the `*left` update of `led_printparts(ai, pref, main, post, left, ..)` -/
+def ledLeft (s : VS) (ai pref main post : Bytes) (left : Int) : Int :=
+  let ln := ai ++ pref ++ main ++ post
+  let off := ucSlen (ai ++ pref ++ main)
+  let tab := posTab s ln
+  let n := ucSlen ln
+  let pos := Ren.renCursorT ln tab n (Ren.renPosT tab n (off - 1))
+  let left := if pos ≥ left + s.xcols then pos - s.xcols / 2 else left
+  if pos < left then (if pos < s.xcols then 0 else pos - s.xcols / 2) else left
+
+/-- `led_line(pref, post, ai, ai_max, left, ..)` without history: (text, terminating key, ai).
+`insertMode`: called from `led_input` (then `*left` is `xleft` and `help` is set). -/
+def ledLine (pref post : Bytes) (ai0 : Bytes) (aiMax : Nat) (insertMode : Bool) : M (Bytes × Int × Bytes) := do
+  let prefEmpty := pref.isEmpty
+  let redraw (ai sb post : Bytes) : M Unit :=
+    if insertMode then modify fun s => { s with ed := { s.ed with xleft := ledLeft s ai pref sb post s.ed.xleft } } else pure ()
+  let rec go : Nat → Bytes → Bytes → Int → M (Bytes × Int × Bytes)
+    | 0, sb, ai, _ => pure (sb, -1, ai)
+    | f + 1, sb, ai, c1 => do
+      redraw ai sb post
       let c ← termRead
-      if c == 6 || c == 5 then go f sb
-      else if c == 8 || c == 127 then go f (if sb.isEmpty then sb else sb.take (lastChar sb))
-      else if c == 21 then go f []
-      else if c == 23 then go f (if sb.isEmpty then sb else sb.take (lastWord sb))
-      else if c == 20 || c == 4 then go f sb            -- ^T / ^D: no auto-indent in a prompt
-      else if c == 16 then do                           -- ^P: unnamed register
+      if c == 6 then do unmodelled; go f sb ai c1            -- ^F: alternate keymap
+      else if c == 5 then go f sb ai c1
+      else if c == 8 || c == 127 then go f (if sb.isEmpty then sb else sb.take (lastChar sb)) ai c
+      else if c == 21 then go f [] ai c
+      else if c == 23 then go f (if sb.isEmpty then sb else sb.take (lastWord sb)) ai c
+      else if c == 20 then go f sb (if ai.length < aiMax then ai ++ [9] else ai) c
+      else if c == 4 then
+        let sb' := if ai.isEmpty && prefEmpty && isBlankC (sb.headD 0) then sb.drop 1 else sb
+        go f sb' (ai.dropLast) c
+      else if c == 16 then do
         let s ← get
-        go f (sb ++ ((s.ed.regs.getRaw 0).1.getD []))
-      else if c == 18 then do                           -- ^R reg
+        go f (sb ++ ((regGet s.ed 0).getD [])) ai c
+      else if c == 18 then do
         let y ← termRead
         let s ← get
-        go f (if y > 0 then sb ++ ((regGet s.ed y.toNat).getD []) else sb)
-      else if c == 1 then do unmodelled; go f sb        -- ^A completion
-      else if c == 10 || tkInt c then pure (sb, c)
+        go f (if y > 0 then sb ++ ((regGet s.ed y.toNat).getD []) else sb) ai c
+      else if c == 1 then do
+        if insertMode && c1 != 1 then unmodelled
+        go f sb ai c
+      else if c == 10 then do
+        redraw ai sb []
+        pure (sb, c, ai)
+      else if tkInt c then pure (sb, c, ai)
       else do
-        match ← readChar c with
-        | some cs => go f (sb ++ cs)
-        | none => go f sb
-  go 100000 []
+        match ← readCharS c with
+        | some cs => go f (sb ++ cs) ai c
+        | none => go f sb ai c
+  go 100000 [] ai0 0
 
-/-- `vi_prompt(msg, ..)` / `led_prompt`: the text typed after the prompt, `none` if interrupted -/
+/-- `led_prompt(pref, "", ..)` minus the prefix (`vi_prompt`): `none` when interrupted -/
 def viPrompt : M (Option Bytes) := do
-  let (txt, key) ← ledLineSimple
+  let (txt, key, _) ← ledLine [58] [] [] 0 false
   if key == 10 then pure (some txt) else pure none
+
+
+/-- `led_read(&kmap)` (`vi_char()`): one character, `none` on an interrupt key -/
+def viChar : M (Option Bytes) := do
+  let rec go : Nat → M (Option Bytes)
+    | 0 => pure none
+    | f + 1 => do
+      let c ← termRead
+      if tkInt c then pure none
+      else if c == 6 then do unmodelled; go f
+      else if c == 5 then go f        -- ^F / ^E switch keymaps
+      else readCharS c
+  go 64
+
 
 /-! ### searching -/
 /-- `vi_search(cmd, cnt, &row, &off)`: `none` = failed (returns 1) -/
@@ -272,7 +302,7 @@ def viSearch (cmd : Nat) (cnt : Int) (r o : Int) : M (Option (Int × Int)) := do
         | some re =>
           withEd fun ed => ed.kwdSet (if re.isEmpty then none else some re) (if cmd == 47 then 1 else -1)
           if !re.isEmpty then
-            withEd fun ed => { ed with regs := (ed.regs.put (128 ||| 47) re 1).put 47 re 0 }    -- history register, then "/
+            withEd fun ed => { ed with regs := ed.regs.put 47 re 0 }    -- `reg_putln` is a no-op with hist=0
           let rest := rest.dropWhile isSpaceC
           modify fun s => { s with soset := !rest.isEmpty, so := atoi rest }
           pure false
